@@ -151,7 +151,9 @@ func init() {
 					}
 				}
 				sp = append(sp, h.Space{Name: "header-sweep-" + k.String(), Count: uint64(len(blocks)),
-					Describe: func(i uint64) interface{} { return fmt.Sprintf("getHeaderBytes(%q, n) for n in [%d,%d)", k.LibName(), blocks[i][0], blocks[i][1]) },
+					Describe: func(i uint64) interface{} {
+						return fmt.Sprintf("getHeaderBytes(%q, n) for n in [%d,%d)", k.LibName(), blocks[i][0], blocks[i][1])
+					},
 					Run: func(c *h.Ctx, i uint64) {
 						for n := blocks[i][0]; n < blocks[i][1]; n++ {
 							headerSweepOne(c, k, n)
@@ -211,7 +213,10 @@ func init() {
 				}
 			}
 			sp = append(sp, h.Space{Name: "real-items-at-boundaries", Count: uint64(len(sizes)), ChunkHint: 1,
-				Describe: func(i uint64) interface{} { s := sizes[i]; return fmt.Sprintf("%s with %d elements (decode=%v)", s.k, s.n, s.decode) },
+				Describe: func(i uint64) interface{} {
+					s := sizes[i]
+					return fmt.Sprintf("%s with %d elements (decode=%v)", s.k, s.n, s.decode)
+				},
 				Run: func(c *h.Ctx, i uint64) {
 					s := sizes[i]
 					w := s.k.Width()
@@ -335,7 +340,9 @@ func init() {
 			}
 			cnts = append(cnts, 65534, 65535, 65536, 65537, 70000)
 			sp = append(sp, h.Space{Name: "decoder-list-count-readback", Count: uint64(len(cnts) * 3), ChunkHint: 8,
-				Describe: func(i uint64) interface{} { return fmt.Sprintf("list of %d children declared with %d length byte(s)", cnts[i/3], i%3+1) },
+				Describe: func(i uint64) interface{} {
+					return fmt.Sprintf("list of %d children declared with %d length byte(s)", cnts[i/3], i%3+1)
+				},
 				Run: func(c *h.Ctx, i uint64) {
 					n, nl := cnts[i/3], int(i%3)+1
 					if n >= 1<<(8*uint(nl)) {
